@@ -102,4 +102,45 @@ mod verif_oracle_poplar1 {
             }
         }
     }
+
+    // Executable form of the eval_and_sketch contract (unit poplar1_sketch): 130 candidate prefixes (more than any batch or cache size in use),
+    // honest report.  The output share must be the IDPF data share of every prefix in order, and the sketch must be
+    // (a + sum data_k r_k, b + sum data_k r_k^2, c + sum auth_k r_k) with ONE element r_k of the verification-randomness stream per prefix,
+    // drawn in order from a stream initialised ONCE for the call.
+    #[test]
+    fn oracle_eval_and_sketch() {
+        use crate::idpf::{Idpf, NoCache};
+        let bits = 9usize;
+        let vdaf = Poplar1::new_turboshake128(bits);
+        let input = IdpfInput::from_bools(&[true, false, true, true, false, false, true, false, true]);
+        let nonce = [3u8; 16];
+        let vk = [9u8; 32];
+        let (public_share, input_shares) = vdaf.shard(b"ctx", &input, &nonce).unwrap();
+        let level = 7usize;
+        let prefixes: Vec<IdpfInput> = (0u32..130).map(|v| IdpfInput::from_bools(&(0..=level).map(|b| (v >> (level - b)) & 1 == 1).collect::<Vec<_>>())).collect();
+        let agg_param = Poplar1AggregationParam::try_from_prefixes(prefixes.clone()).unwrap();
+        for agg_id in 0..2usize {
+            let mk = || Prng::<Field64, _>::from_seed_stream(XofTurboShake128::seed_stream(&[7u8; 32], &[b"corr".as_slice()], &[]));
+            let mut corr = mk();
+            let mut corr_ref = mk();
+            let (a, b, c) = (corr_ref.get(), corr_ref.get(), corr_ref.get());
+            let r = vdaf.eval_and_sketch::<Field64>(&vk, b"ctx", agg_id, &nonce, &agg_param, &public_share, &input_shares[agg_id].idpf_key, &mut corr);
+            let (out, sketch) = match r { Ok(x) => x, Err(e) => { println!("COUNTEREXAMPLE Poplar1::eval_and_sketch refuses an honest report with 130 prefixes: {}", e); return; } };
+            let mut vr: Prng<Field64, _> = vdaf.init_prng(&vk, DST_VERIFY_RANDOMNESS, b"ctx", [nonce.as_slice(), agg_param.level.to_be_bytes().as_slice()]);
+            let idpf = Idpf::<Poplar1IdpfValue<Field64>, Poplar1IdpfValue<Field255>>::new((), ());
+            let (mut s0, mut s1, mut s2) = (a, b, c);
+            for (k, prefix) in prefixes.iter().enumerate() {
+                let share = Poplar1IdpfValue::<Field64>::from(idpf.eval(agg_id, &public_share, &input_shares[agg_id].idpf_key, prefix, b"ctx", &nonce, &mut NoCache::new()).unwrap());
+                let rk = vr.get();
+                s0 += share.0[0] * rk;
+                s1 += share.0[0] * rk * rk;
+                s2 += share.0[1] * rk;
+                if out.get(k) != Some(&share.0[0]) { println!("COUNTEREXAMPLE Poplar1::eval_and_sketch (aggregator {}, 130 prefixes): output share element {} is not the IDPF data share of prefix {}", agg_id, k, k); return; }
+            }
+            if out.len() != 130 || sketch.len() != 3 || sketch[0] != s0 || sketch[1] != s1 || sketch[2] != s2 {
+                println!("COUNTEREXAMPLE Poplar1::eval_and_sketch (aggregator {}, 130 candidate prefixes): the sketch is not (a + sum data_k r_k, b + sum data_k r_k^2, c + sum auth_k r_k) with one verification-randomness element per prefix drawn in order from a single stream", agg_id);
+                return;
+            }
+        }
+    }
 }
